@@ -19,7 +19,7 @@
 
     Ghost fields (p_acqI ... p_errs) count, per process, the successful semaphore acquisitions, the
     semaphore releases and the errors returned; they do not influence the transitions. *)
-From ZV Require Import Lib.Base.
+From ZV Require Import Lib.Base Generated.SchedConsts.
 
 Inductive semid := SI | SB.
 Inductive pc := PIdle | PAcq | PRun | PYield | PAcqErr | PEnd.
@@ -44,11 +44,18 @@ Record state := mkSt {
 Definition idle_proc : proc := mkProc PIdle None false false false 0 0 0 0 0.
 Definition init (ci cb : nat) : state := mkSt ci cb 0 0 [] false.
 
-(** newMultiScheduler: batch capacity = capacity / batchdiv (batchdiv 0 = default 4), at least 1 *)
-Definition batch_cap (capacity batchdiv : N) : N :=
+(** newMultiScheduler's batch capacity.
+    SPEC (what the property calls "the batch capacity"; the code's log line: "Batch queue size 1/batchdiv of capacity",
+    default "1/4 of interactive capacity", at least one slot): *)
+Definition batch_cap_spec (capacity batchdiv : N) : N :=
   let d := if N.eqb batchdiv 0 then 4%N else batchdiv in
   let b := N.div capacity d in
   if N.eqb b 0 then 1%N else b.
+(** MODEL of the code: the computation of the batch semaphore's size as translator/schedconsts reads it from
+    search/sched.go on every run (coq/Generated/SchedConsts.v: [default_batchdiv], [batch_cap_src]); batchdiv 0 =
+    tunable not set.  Theorem C20_batch_capacity_formula: model = spec for all capacities and divisors. *)
+Definition batch_cap (capacity batchdiv : N) : N :=
+  Z.to_N (batch_cap_src (Z.of_N capacity) (if N.eqb batchdiv 0 then default_batchdiv else Z.of_N batchdiv)).
 
 Inductive event :=
 | ENew                (* a search request (with its own context) comes into existence *)
